@@ -225,6 +225,90 @@ pub mod vonce {
     pub type OnceCell<T> = super::vsync::OnceLock<T>;
 }
 
+/// Drop-in for the `thread_local` crate in the instrumented build. That crate tells threads apart
+/// by an id it keeps in a real thread-local; all simulated threads live on one OS thread and would
+/// share one value (a scratch buffer borrowed by two "threads" at once). Here the value belongs
+/// to the simulated thread of the current execution.
+pub mod vtls {
+    use std::collections::BTreeMap;
+    use std::sync::Mutex;
+
+    static EXECUTION: std::sync::atomic::AtomicU64 = std::sync::atomic::AtomicU64::new(1);
+    /// Called by the harness at the start of every execution.
+    pub fn new_execution() {
+        EXECUTION.fetch_add(1, std::sync::atomic::Ordering::Relaxed);
+    }
+    fn me() -> (u64, u64) {
+        if crate::in_shuttle() {
+            let t: usize = shuttle_engine::runtime::execution::ExecutionState::me().into();
+            (EXECUTION.load(std::sync::atomic::Ordering::Relaxed), t as u64)
+        } else {
+            thread_local!(static ID: u64 = { static N: std::sync::atomic::AtomicU64 = std::sync::atomic::AtomicU64::new(0); N.fetch_add(1, std::sync::atomic::Ordering::Relaxed) });
+            (0, ID.with(|i| *i))
+        }
+    }
+
+    pub struct ThreadLocal<T: Send> {
+        slots: Mutex<BTreeMap<(u64, u64), Box<T>>>,
+    }
+    unsafe impl<T: Send> Sync for ThreadLocal<T> {}
+    impl<T: Send> ThreadLocal<T> {
+        pub const fn new() -> Self {
+            ThreadLocal { slots: Mutex::new(BTreeMap::new()) }
+        }
+        pub fn with_capacity(_n: usize) -> Self {
+            Self::new()
+        }
+        pub fn get(&self) -> Option<&T> {
+            let g = self.slots.lock().unwrap_or_else(|e| e.into_inner());
+            // a slot is boxed and never removed while `self` is shared
+            g.get(&me()).map(|b| unsafe { &*(&**b as *const T) })
+        }
+        pub fn get_or<F: FnOnce() -> T>(&self, create: F) -> &T {
+            if let Some(v) = self.get() {
+                return v;
+            }
+            let v = Box::new(create());
+            let mut g = self.slots.lock().unwrap_or_else(|e| e.into_inner());
+            let b = g.entry(me()).or_insert(v);
+            unsafe { &*(&**b as *const T) }
+        }
+        pub fn get_or_try<F: FnOnce() -> Result<T, E>, E>(&self, create: F) -> Result<&T, E> {
+            if let Some(v) = self.get() {
+                return Ok(v);
+            }
+            let v = create()?;
+            Ok(self.get_or(|| v))
+        }
+        pub fn get_or_default(&self) -> &T
+        where
+            T: Default,
+        {
+            self.get_or(T::default)
+        }
+        pub fn clear(&mut self) {
+            self.slots.get_mut().unwrap_or_else(|e| e.into_inner()).clear();
+        }
+        /// values of the current execution's threads
+        pub fn iter_mut(&mut self) -> impl Iterator<Item = &mut T> {
+            let cur = EXECUTION.load(std::sync::atomic::Ordering::Relaxed);
+            let shuttle = crate::in_shuttle();
+            self.slots.get_mut().unwrap_or_else(|e| e.into_inner()).iter_mut().filter(move |(k, _)| !shuttle || k.0 == cur).map(|(_, b)| &mut **b)
+        }
+    }
+    impl<T: Send> Default for ThreadLocal<T> {
+        fn default() -> Self {
+            Self::new()
+        }
+    }
+    impl<T: Send> std::fmt::Debug for ThreadLocal<T> {
+        fn fmt(&self, f: &mut std::fmt::Formatter<'_>) -> std::fmt::Result {
+            f.write_str("ThreadLocal(..)")
+        }
+    }
+    pub type CachedThreadLocal<T> = ThreadLocal<T>;
+}
+
 /// Drop-in for `std::thread`.
 pub mod vthread {
     pub use shuttle::thread::*;
